@@ -518,6 +518,68 @@ func (g *gen) operatorCase(maxLen int) Input {
 	return in
 }
 
+// operatorStartCase: the operator's start-up order - the hooks' EnableScheduleBindings tasks are
+// handled (some bindings disabled again, ids added and removed by hand) BEFORE
+// ScheduleManager.Start(); afterwards hooks are disabled and enabled again with ticks through
+// the cron entries the manager holds then.  Crontabs due months from now (farFamilies).
+func (g *gen) operatorStartCase(maxLen int) Input {
+	fg := &gen{r: g.r, fams: farFamilies()}
+	in := Input{Via: "operator"}
+	var focus []int
+	in.Strings, _, focus = fg.table(g.r.Chance(30), 0)
+	for len(in.Hooks) == 0 || g.totalBindings(in.Hooks) < 2 {
+		in.Hooks, in.V0 = g.operatorHooks(len(in.Strings), focus)
+	}
+	h := func() int { return g.r.Intn(len(in.Hooks)) }
+	for k := range in.Hooks {
+		if g.r.Chance(85) {
+			in.Ops = append(in.Ops, Op{Kind: "Enable", H: k})
+		}
+		if g.r.Chance(12) {
+			in.Ops = append(in.Ops, Op{Kind: "TickAll"})
+		}
+	}
+	if g.r.Chance(55) {
+		k := h()
+		in.Ops = append(in.Ops, Op{Kind: "Disable", H: k})
+		if g.r.Chance(40) {
+			in.Ops = append(in.Ops, Op{Kind: "Enable", H: k})
+		}
+	}
+	if g.r.Chance(30) {
+		c, i := g.r.Intn(len(in.Strings)), 1+g.r.Intn(4)
+		in.Ops = append(in.Ops, Op{Kind: "Add", C: c, I: i})
+		if g.r.Chance(60) {
+			in.Ops = append(in.Ops, Op{Kind: "Remove", C: c, I: i})
+		}
+	}
+	// the order of the start-up tasks is the queue's; what comes after them is shuffled a little
+	if n := len(in.Ops); n > len(in.Hooks) && g.r.Chance(40) {
+		j := g.r.Intn(n)
+		in.Ops[n-1], in.Ops[j] = in.Ops[j], in.Ops[n-1]
+	}
+	in.Ops = append(in.Ops, Op{Kind: "SmStart"})
+	for n := 3 + g.r.Intn(8); n > 0 && len(in.Ops) < maxLen; n-- {
+		switch k := g.r.Intn(100); {
+		case k < 28:
+			in.Ops = append(in.Ops, Op{Kind: "Disable", H: h()})
+		case k < 50:
+			in.Ops = append(in.Ops, Op{Kind: "Enable", H: h()})
+		case k < 74:
+			in.Ops = append(in.Ops, Op{Kind: "TickAll"})
+		case k < 86:
+			in.Ops = append(in.Ops, Op{Kind: "Tick", N: g.r.Intn(3)})
+		case k < 91:
+			in.Ops = append(in.Ops, Op{Kind: "Add", C: g.r.Intn(len(in.Strings)), I: 1 + g.r.Intn(4)})
+		case k < 96:
+			in.Ops = append(in.Ops, Op{Kind: "Remove", C: g.r.Intn(len(in.Strings)), I: 1 + g.r.Intn(4)})
+		default:
+			in.Ops = append(in.Ops, Op{Kind: "Fire", C: g.r.Intn(len(in.Strings))})
+		}
+	}
+	return in
+}
+
 // operatorCorpus: fixed cases of the operator class
 func operatorCorpus() []Input {
 	en := func(h int) Op { return Op{Kind: "Enable", H: h} }
